@@ -15,11 +15,16 @@ use crate::read_path_property_store::{
 };
 use crate::read_path_tombstones::collect_tombstoned_nodes;
 use crate::snapshot;
+#[cfg(nervusdb_verif)]
+use crate::verif::sync::{Mutex, RwLock};
 use nervusdb_api::{
     EdgeKey, ExternalId, GraphSnapshot, GraphStore, InternalNodeId, LabelId, PropertyValue,
     RelTypeId,
 };
 use std::collections::{BTreeMap, HashSet};
+#[cfg(nervusdb_verif)]
+use std::sync::Arc;
+#[cfg(not(nervusdb_verif))]
 use std::sync::{Arc, Mutex, RwLock};
 
 #[derive(Debug)]
@@ -54,6 +59,8 @@ impl GraphStore for GraphEngine {
 
     fn snapshot(&self) -> Self::Snapshot {
         let i2e = Arc::new(self.scan_i2e_records());
+        #[cfg(nervusdb_verif)]
+        crate::verif::sched("snapshot.after_i2e");
         let inner = self.begin_read();
         let tombstoned_nodes: HashSet<InternalNodeId> = collect_tombstoned_nodes(inner.runs());
         StorageSnapshot {
